@@ -1693,6 +1693,24 @@ func (e *Engine) computeZeroDefaults() {
 							}
 						}
 					}
+					// … or a call of a method on the new object that stores the field on every one of its
+					// own successful paths (d := &Decoder{…}; d.load(data))
+					for _, r := range *x.Referrers() {
+						call, ok := r.(*ssa.Call)
+						if !ok || len(call.Call.Args) == 0 || call.Call.Args[0] != ssa.Value(x) {
+							continue
+						}
+						callee := call.Call.StaticCallee()
+						if callee == nil || callee.Signature.Recv() == nil {
+							continue
+						}
+						for _, f := range mustStoreFields(callee) {
+							if initBlocks[f] == nil {
+								initBlocks[f] = map[*ssa.BasicBlock]bool{}
+							}
+							initBlocks[f][call.Block()] = true
+						}
+					}
 					for f, ib := range initBlocks {
 						if ib[b] || !okReturnReachableAvoiding(fn, b, ib) {
 							seenInit[fieldKey{n.Obj(), f}]++
@@ -1722,6 +1740,44 @@ func (e *Engine) computeZeroDefaults() {
 			}
 		}
 	}
+}
+
+// MustStoreFields is mustStoreFields for other packages.
+func MustStoreFields(fn *ssa.Function) []int { return mustStoreFields(fn) }
+
+// mustStoreFields: the fields of its receiver that method fn assigns on every path to a return
+// that may carry a nil error.
+func mustStoreFields(fn *ssa.Function) []int {
+	if len(fn.Blocks) == 0 || len(fn.Params) == 0 {
+		return nil
+	}
+	recv := fn.Params[0]
+	if recv.Referrers() == nil {
+		return nil
+	}
+	blocks := map[int]map[*ssa.BasicBlock]bool{}
+	for _, r := range *recv.Referrers() {
+		fa, ok := r.(*ssa.FieldAddr)
+		if !ok || fa.Referrers() == nil {
+			continue
+		}
+		for _, rr := range *fa.Referrers() {
+			if st, ok := rr.(*ssa.Store); ok && st.Addr == fa {
+				if blocks[fa.Field] == nil {
+					blocks[fa.Field] = map[*ssa.BasicBlock]bool{}
+				}
+				blocks[fa.Field][st.Block()] = true
+			}
+		}
+	}
+	var out []int
+	for f, ib := range blocks {
+		if ib[fn.Blocks[0]] || !okReturnReachableAvoiding(fn, fn.Blocks[0], ib) {
+			out = append(out, f)
+		}
+	}
+	sort.Ints(out)
+	return out
 }
 
 func (e *Engine) hasZeroDefault(k fieldKey) bool {
